@@ -600,6 +600,13 @@ def r15_pairing(idx, r):
     pairing_rule(idx, r, ["armi.physics.fuelCycle.fuelHandlers", "armi.reactor.cores", "armi.reactor.spentFuelPool", "armi.reactor.assemblies", "armi.reactor.reactors"], 80)
 
 
+def r_borrowed_r14_17(idx, r):
+    """clause of C01: Assembly.insert reaches the base primitive with the same object (R01.4)"""
+    from ..report import Only
+    from .c01 import r4_overrides
+    r4_overrides(idx, Only(r, ["Assembly.insert"]))
+
+
 def run(idx, chk):
     chk.explanation = (
         "C14: who may write childrenByLocator/assembliesByName/blocksByName; Core.add/removeAssembly touching every table exactly once on "
@@ -634,3 +641,5 @@ def run(idx, chk):
                  necessary="the two assemblies of a swap are not exchanged with their locations")
     chk.run_rule("R14.16", "every chain found is marked done; the pool is included whenever asked for; ex-core structures are registered under the normalised name", lambda r: r16_chains_pool_and_registry(idx, r), floor=4,
                  necessary="a repeated shuffle puts every assembly where the file says; pool assemblies stay findable by name; none is lost")
+    chk.run_rule("R14.17", "clause of C01: Assembly.insert reaches the base primitive with the same object (R01.4)", lambda r: r_borrowed_r14_17(idx, r), floor=1,
+                 necessary="a block inserted into an assembly is listed once, where it was put")
